@@ -83,7 +83,11 @@ func (self *Lexer) skipLineComment() {
 		self.advance()
 	}
 
-	self.advance()
+	// Only skip the line feed if there is one: a comment which ends the input must not move the
+	// location beyond the end of the text (the position of the EOF token).
+	if self.currentChar != nil {
+		self.advance()
+	}
 }
 
 func (self *Lexer) skipBlockComment() {
